@@ -870,6 +870,9 @@ def scen_C03(ctx):
         ncp = 0
         for _ in range(ctx.scale(5, 14)):
             lines += g.hist(kt, g.rng.randrange(1, 40), keys=ks, big=0.03)
+            if g.rng.random() < 0.3:
+                lines.append('fill m0')          # read_fill_buffer between the updates and the flush/sync: it must not disturb durability
+                g.count('fill')
             lines += ['dirty m0', 'trace']
             op = g.rng.choice(SY + ['dbsyncall', 'dbsyncdata'])
             lines.append('%s %s' % (op, 'd0' if op.startswith('db') else 'm0'))
